@@ -14,7 +14,8 @@ string unhex(string h) {
 void fe(string ef, string hexpath) {
   string p = unhex(hexpath);
   mixed e, r;
-  vlog("\"e\":\"EfunBegin\",\"efun\":" + jq(ef) + ",\"hex\":" + jq(hexpath));
+  if (ef != "ed_end") vlog("\"e\":\"EfunBegin\",\"efun\":" + jq(ef) + ",\"hex\":" + jq(hexpath));
+  else if (in_edit(this_player())) return;      // (the editor is still open: the line was not ours)
   switch (ef) {
   case "read_file": e = catch(r = read_file(p)); break;
   case "write_file": e = catch(r = write_file(p, "x\n")); break;
@@ -43,6 +44,9 @@ void fe(string ef, string hexpath) {
   case "find_object": e = catch(r = find_object(p)); break;
   case "call_other": e = catch(r = call_other(p, "query")); break;
   case "clone": e = catch(r = new(p)); if (objectp(r)) destruct(r); break;
+  // an editor session of the commanding user: the bracket stays open while the user types editor commands; "ed_end" closes it
+  case "ed": e = catch(ed(p)); if (!e && in_edit(this_player())) return; break;
+  case "ed_end": ef = "ed"; break;
   }
   vlog("\"e\":\"EfunEnd\",\"efun\":" + jq(ef) + ",\"err\":" + (e ? 1 : 0));
 }
